@@ -61,27 +61,18 @@ impl Shape {
             Shape::UnionIn(i) => format!("union_in{i}"),
         }
     }
+    /// Shapes applied to an operator with `n_in` inputs. Input-side shapes are applied to input 0;
+    /// the push-forcing tee and the defer_tick context also to input 1 of binary operators.
     pub fn all(n_in: usize) -> Vec<Shape> {
-        let mut v = vec![Shape::Base];
-        for i in 0..n_in {
-            v.push(Shape::IdIn(i));
-        }
-        v.push(Shape::IdOut);
+        let mut v = vec![Shape::Base, Shape::IdIn(0), Shape::IdOut];
         for i in 0..n_in {
             v.push(Shape::TeeIn(i));
         }
-        v.push(Shape::UnionOut);
-        v.push(Shape::TeeInUnionOut);
-        for i in 0..n_in {
-            v.push(Shape::HoffIn(i));
-        }
-        v.push(Shape::HoffOut);
+        v.extend([Shape::UnionOut, Shape::TeeInUnionOut, Shape::HoffIn(0), Shape::HoffOut]);
         for i in 0..n_in {
             v.push(Shape::DeferIn(i));
         }
-        for i in 0..n_in {
-            v.push(Shape::UnionIn(i));
-        }
+        v.push(Shape::UnionIn(0));
         v
     }
 }
@@ -390,6 +381,23 @@ pub struct ProgSpec {
     pub kind: Kind,
 }
 
+/// Programs that `dfir_lang` accepts but whose expansion rustc rejects with E0282 ("type
+/// annotations needed") although the item types are fully determined by the typed source and the
+/// typed sink: the operator's generated closure is type-checked before the surrounding pipeline
+/// pins its item type. Such a program cannot be part of a compiled family (it would break the
+/// shard build), so it is excluded here and listed in the engine's report as a compile-agreement
+/// observation for C22 (base shape compiles, this shape does not).
+pub fn rustc_cannot_infer(spec_name: &str, shape: Shape) -> bool {
+    match shape {
+        // push-side `multiset_delta` (behind a tee) and `multiset_delta` reading a defer_tick buffer
+        Shape::TeeIn(0) | Shape::TeeInUnionOut | Shape::DeferIn(0) if spec_name == "multiset_delta" => true,
+        // the non-fused input of join_fused_lhs / join_fused_rhs reading a defer_tick buffer
+        Shape::DeferIn(1) if spec_name.starts_with("join_fused_lhs_") => true,
+        Shape::DeferIn(0) if spec_name.starts_with("join_fused_rhs_") => true,
+        _ => false,
+    }
+}
+
 /// Development aid: building with `VF_DFIR_SUBSET=1` in the environment compiles only the base
 /// shapes and the depth-0 blocking programs (fast turnaround while editing operator templates).
 /// The registered checks are built without it.
@@ -400,6 +408,9 @@ pub fn family() -> Vec<ProgSpec> {
     for (si, spec) in op_specs().iter().enumerate() {
         for shape in Shape::all(spec.op.n_in()) {
             if SUBSET && shape != Shape::Base {
+                continue;
+            }
+            if rustc_cannot_infer(&spec.name, shape) {
                 continue;
             }
             if !spec.documented && !shape.preserving() {
